@@ -353,6 +353,13 @@ def run(chk):
     ng_ = guardrules.check(chk, c, 'C13-G', ['utils._get_date_format', 'utils._get_timestamp_format', 'utils.get_datetime_info', 'utils._datetime_obj_factory', 'base_datatypes.TM.__init__', 'base_datatypes.DateTimeDataType.__init__', 'base_datatypes.NM.__init__', 'base_datatypes.SI.__init__', 'factories.datatype_factory', 'factories.numeric_factory', 'factories.sequence_id_factory'])
     chk.floor('refusal predicates compared (C13-G)', ng_, 1)
 
+    chk.rule('C13-D', 'decision structure of the functions this property is anchored in: every effect statement (store, call, return, '
+                   'raise) runs under the same combinations of the function\'s elementary tests as in the reviewed tree, and none '
+                   'was deleted (reference/decisions.json; compared by meaning, rewritten functions are not compared)')
+    from . import guardrules as _gr
+    nd2_ = _gr.check_decisions(chk, c, 'C13-D', lambda fq_: fq_.startswith(('utils.', 'factories.', 'base_datatypes.BaseDataType', 'base_datatypes.NumericDataType', 'base_datatypes.DateTimeDataType', 'base_datatypes.DT', 'base_datatypes.TM', 'base_datatypes.DTM', 'base_datatypes.NM', 'base_datatypes.SI')))
+    chk.floor('functions compared with the decision reference (C13-D)', nd2_, 1)
+
 
 
 TEXT_FORMS = ("f'{%s}'", "'{0}'.format(%s)", "'{}'.format(%s)", 'str(%s)', "'%%s' %% %s", 'format(%s)', "'%%s' %% (%s,)", 'text_type(%s)')
